@@ -388,7 +388,8 @@ class GaussProcEstimator(Estimator):
                 rung_levels = scheduler.rung_levels
             else:
                 rung_levels = scheduler.rung_levels + [max_resource_level]
-            self._gpmodel.create_likelihood(rung_levels)
+            if getattr(self._gpmodel, "_likelihood", None) is None:
+                self._gpmodel.create_likelihood(rung_levels)
 
 
 class GaussProcEmpiricalBayesEstimator(GaussProcEstimator):
